@@ -61,6 +61,10 @@ EXPLANATION += (
     '(R-COVER).'
 )
 
+EXPLANATION += (
+    ' Round 3: name lookups are keyed by (level, label).'
+)
+
 RULE_TEXT = (
     "one obligation per consumed record key, per dataset, per record key "
     "of the codec, per constant relation; non-trivial when the key / "
